@@ -201,6 +201,12 @@ func c12Net(c *Ctx, s *netSpec, in []float64, viaGenesis bool) {
 		}
 	}
 
+	// mixed sequences on one instance: every mode after every other, with and without a flush in between, each time on a new
+	// input vector
+	if !c12Sequence(c, s, build, steps, detail) {
+		return
+	}
+
 	// coverage: does a bias link matter?
 	biasMatters := false
 	if s.NBias > 0 {
@@ -245,4 +251,89 @@ func c12Net(c *Ctx, s *netSpec, in []float64, viaGenesis bool) {
 			c.Sample(map[string]interface{}{"net": s.brief(), "inputs": in, "outputs": want, "longest_path": L})
 		}
 	}
+}
+
+// c12Sequence drives one fast solver and one standard network through a PRNG-chosen sequence of activation modes; before
+// every step a new input vector is loaded, sometimes after a flush. Whatever ran before, the outputs must be the
+// feed-forward function of the vector loaded last.
+func c12Sequence(c *Ctx, s *netSpec, build func() *network.Network, steps int, detail func([]float64) map[string]interface{}) bool {
+	r := c.G
+	fastS, err := build().FastNetworkSolver()
+	if err != nil {
+		return true
+	}
+	std := build()
+	var trace []string
+	for k := 0; k < 5; k++ {
+		in := randInputs(r, s.NIn, 2)
+		want, _, sums := s.eval(in)
+		skip := false
+		for v := s.sensors(); v < s.total(); v++ {
+			if (s.Acts[v] == neatmath.StepActivation || s.Acts[v] == neatmath.SignActivation) && math.Abs(sums[v]) < 1e-9 {
+				skip = true
+			}
+		}
+		for _, w := range want {
+			skip = skip || math.IsNaN(w) || math.IsInf(w, 0)
+		}
+		if skip {
+			return true
+		}
+		flush := r.Intn(2) == 0
+		mode := r.Intn(3)
+		for _, inst := range []struct {
+			name   string
+			solver network.Solver
+		}{{"fast", fastS}, {"std", std}} {
+			if flush {
+				if ok, ferr := inst.solver.Flush(); ferr != nil || !ok {
+					c.Violate("solver-error/flush", detail(nil), "%s Flush failed in a sequence: %v", inst.name, ferr)
+					return false
+				}
+			}
+			if lerr := inst.solver.LoadSensors(in); lerr != nil {
+				c.Violate("solver-error/load", detail(nil), "%s LoadSensors failed in a sequence: %v", inst.name, lerr)
+				return false
+			}
+			var aerr error
+			op := ""
+			switch {
+			case mode == 0:
+				op = "forward"
+				_, aerr = inst.solver.ForwardSteps(steps)
+			case mode == 1:
+				op = "recursive"
+				_, aerr = inst.solver.RecursiveSteps()
+			default:
+				if inst.name == "std" {
+					op = "forward"
+					_, aerr = inst.solver.ForwardSteps(steps)
+				} else {
+					op = "relax"
+					_, aerr = inst.solver.Relax(s.total()+1, 1e-300)
+				}
+			}
+			step := op
+			if flush {
+				step = "flush+" + op
+			}
+			if inst.name == "fast" {
+				trace = append(trace, step)
+			}
+			got := inst.solver.ReadOutputs()
+			c.Eval(1)
+			c.Count("solver.sequence_"+inst.name+"_"+op, 1)
+			if aerr != nil || !vecClose(got, want, 1e-9, 1e-12) {
+				d := detail(got)
+				d["expected"] = want
+				d["inputs"] = in
+				d["sequence_so_far"] = append([]string{}, trace...)
+				d["instance"] = inst.name
+				c.Violate("solver-value/sequence", d, "%s solver, step #%d (%s) of a sequence on one instance returned %v (%v), topological evaluation of the inputs loaded last gives %v",
+					inst.name, k, step, got, aerr, want)
+				return false
+			}
+		}
+	}
+	return true
 }
